@@ -311,11 +311,38 @@ def c06(sc, V):
 
 # ------------------------------------------------------------------------------------------------ C11
 
+def _option_invalid(k, v):
+    """documented typing of the options the generator uses (commands/util.py validate_option): True = must be refused"""
+    isint = isinstance(v, int)                       # bool is an int for Python
+    isnum = isinstance(v, (int, float))
+    if k in ("numprocesses", "max_retry", "max_age", "stop_signal"):
+        return not isint
+    if k in ("warmup_delay", "graceful_timeout", "retry_in"):
+        return not isnum
+    if k in ("send_hup", "stop_children", "respawn", "shell", "copy_env"):
+        return not isinstance(v, bool)
+    if k in ("uid", "gid"):
+        return not (isint or isinstance(v, str))
+    if k in ("cmd", "args", "working_dir", "singleton"):
+        return False
+    return None                                      # not a key this oracle knows about (e.g. bogus_key is invalid, hooks.* valid)
+
+
 def c11(sc, V):
     f = []
     for s in V:
         if s.kind() not in ("req", "raw") or s.before.blocked or s.snap.blocked:
             continue
+        # "every option of a multi-option set … is validated before any of them is applied": an ill-typed value anywhere in
+        # the request means a validation error (errno 3) and no effect at all
+        if s.cmd() == "set" and isinstance(s.props().get("options"), dict) and isinstance(s.props().get("name"), str) and \
+                s.op[1].get("msg_type") != "cast" and any(_option_invalid(k, v) is True for k, v in s.props()["options"].items()):
+            reps = s.of("rep")
+            eff0 = [l for l in s.lines if l[0] in ("spawn", "ev", "reap") or (l[0] == "sig" and l[3] != "g")]
+            if reps and (reps[0][3] != "error" or reps[0][4] != "3" or eff0):
+                f.append({"sig": "ill-typed-option-not-refused-by-validation", "step": s.n,
+                          "msg": "set with an ill-typed option was answered %s/%s%s" % (reps[0][3], reps[0][4], " and had effects" if eff0 else "")})
+                continue
         errs = [r for r in s.of("rep") if r[3] == "error" and r[4] in ("1", "2", "3", "4", "5")]
         if not errs:
             continue
@@ -730,7 +757,7 @@ def c04(sc, V):
                             not alive(s.before.kernel.get(pid, ("g", None))[0]):
                         f.append({"sig": "dead-pid-listed-after-check", "step": s.n, "msg": "pid %d of %s is dead but still listed" % (pid, wn)})
                 for pid, (st, pp) in a.kernel.items():
-                    if st == "z" and pp == 0 and pid not in orphaned_ok and s.before.kernel.get(pid, ("g", None))[0] == "z":
+                    if st == "z" and pp == 0 and s.before.kernel.get(pid, ("g", None))[0] == "z":
                         f.append({"sig": "zombie-after-check", "step": s.n, "msg": "zombie %d outlives a periodic check" % pid})
     return f
 
